@@ -670,3 +670,69 @@ pub fn finalize(out: ShardOut, is_replay: bool) -> CheckResult {
         notes: vec![],
     }
 }
+
+/// C14 under storage failures: whenever a storage call fails while the HTTP handlers serve a
+/// request, the response must say so (5xx) - not 404 "no snapshot", not 200, not 409.
+pub fn c14_fault_twin(seed: u64, cov: &mut Cov) -> Option<Found> {
+    let cfg = Config { snapshot_days: 14, snapshot_versions: 4 };
+    let mut base = Subject::new(Kind::SQL_LIB, cfg).ok()?;
+    let c = Rng::new(seed).fork(0xC14F).uuid();
+    let mut chain = vec![];
+    let mut p = Uuid::nil();
+    for i in 0..3u8 {
+        if let Resp::AddOk { vid, .. } = base.exec(c, &Req::AddVersion { parent: p, data: vec![i; 30] }) {
+            chain.push(vid);
+            p = vid;
+        }
+    }
+    if chain.len() < 3 {
+        return None;
+    }
+    let _ = base.exec(c, &Req::AddSnapshot { vid: chain[1], data: b"snapshot".to_vec() });
+    let img = ScratchDir::new("c14img");
+    copy_dir(base.dir.as_ref().unwrap().path(), img.path()).ok()?;
+    let stranger = Rng::new(seed).fork(0xC14E).uuid();
+    let reqs: Vec<(Uuid, Req)> = vec![
+        (c, Req::AddVersion { parent: chain[2], data: b"next".to_vec() }),
+        (c, Req::AddVersion { parent: chain[0], data: b"stale".to_vec() }),
+        (c, Req::GetChild { parent: Uuid::nil() }),
+        (c, Req::GetChild { parent: chain[2] }),
+        (c, Req::AddSnapshot { vid: chain[2], data: b"snapshot two".to_vec() }),
+        (c, Req::GetSnapshot),
+        (stranger, Req::AddVersion { parent: Uuid::nil(), data: b"first".to_vec() }),
+        (stranger, Req::GetSnapshot),
+    ];
+    let hook = FaultHook::new();
+    for (ri, (client, req)) in reqs.iter().enumerate() {
+        // how many storage calls does the request make through the handlers?
+        let n = {
+            let mut s = open_copy(img.path(), Kind::SQL_HTTP, &hook).ok()?;
+            hook.reset(-1, false);
+            let _ = s.exec(*client, req);
+            hook.counter.load(Ordering::SeqCst)
+        };
+        for idx in 0..n {
+            let mut s = open_copy(img.path(), Kind::SQL_HTTP, &hook).ok()?;
+            hook.reset(idx, false);
+            let resp = s.exec(*client, req);
+            let fired = hook.fired.load(Ordering::SeqCst);
+            let call = hook.log.lock().unwrap().get(idx as usize).map(|e| format!("{:?}", e.call)).unwrap_or_default();
+            hook.reset(-1, false);
+            cov.evaluations += 1;
+            if !fired {
+                continue;
+            }
+            let status = s.last_http.as_ref().map(|(_, r)| r.status).unwrap_or(0);
+            cov.hit(format!("storage-failure-through-http|{}|{call}|status={status}", req.name()));
+            if status < 500 {
+                return Some(Found {
+                    property: "C14".into(),
+                    signature: format!("C14:storage failure answered {status}"),
+                    msg: format!("{} through the HTTP handlers with storage call #{idx} ({call}) failing was answered {} ({}): the outcome of the request is a storage failure, which this response does not say", req.name(), status, resp.short()),
+                    replay: json!({"origin": "c14-fault", "case": ri * 100 + idx as usize}),
+                });
+            }
+        }
+    }
+    None
+}
